@@ -9,7 +9,7 @@ import (
 // ---- inputs -------------------------------------------------------------------------------
 
 // verifC28PartAlphabet: the pattern components. The first `alpha` entries are used.
-var verifC28PartAlphabet = []string{"**", "*", "a", "b", "?", "[ab]", "[", "a*", "\\a", "[^a]"}
+var verifC28PartAlphabet = []string{"**", "*", "a", "b", "?", "[ab]", "\\a", "[", "a*", "[^a]"}
 
 // verifC28Part picks one pattern component (symbolic choice, concrete string).
 func verifC28Part(alpha int) string {
